@@ -603,6 +603,9 @@ class JournalStorageReplayResult:
 
         state = TrialState(log["state"])
         if state == self._trials[trial_id].state and state == TrialState.RUNNING:
+            # The state is kept the same, i.e., this request did not acquire the trial.
+            if self._is_issued_by_this_worker(log):
+                self._worker_id_to_owned_trial_id.pop(self.worker_id, None)
             return
 
         trial = copy.copy(self._trials[trial_id])
